@@ -11,6 +11,15 @@ CHECKS = {
 	'C01': ('exploration', 'runtime monitor: differential oracle (set definition) on every calc_signature/find_kmers call, exhaustive small scopes + seeded hostile classes, sys.monitoring reach',
 	        'Every call of the real calc_signature / find_kmers made by the workload is compared with an independent executable definition of the signature; all sequences over ACGTN up to a length bound x a (k, prefix) grid are enumerated completely, the rest (k up to 32, arbitrary bytes, planted overlapping / flush / palindromic occurrences, four input types, both accumulators) is seeded sampling. Held = held on the executions observed.',
 	        'Trusts vf/oracles/sigdef.py as the statement; native encoder only observed through its Python callers (sanitizer stage separately).', 'DESIGN.md 3/C01'),
+	'C02': ('exploration', 'runtime monitor: bit-for-bit comparison of every jaccarddist/jaccard call with an exact-rational float32 oracle; exhaustive subset pairs x 36 dtype pairs + structural classes; ASan/UBSan overlay of the generated C',
+	        'Every real call is compared bit for bit with |A xor B|/|A or B| rounded once (two independent roundings must agree or the run is inconclusive). All ordered subset pairs of a per-dtype-pair universe containing the top of each integer range are enumerated for all 36 dtype pairs; large structural classes, strided views and width-straddling comparisons are sampled; the same workload runs against an ASan+UBSan build of the generated C.',
+	        'Trusts vf/oracles/jaccard.py; sanitizer build comes from the generated C present in the tree (no Cython in the sandbox).', 'DESIGN.md 3/C02'),
+	'C07': ('exploration', 'runtime monitor: positional-arithmetic oracle on kmer_to_index / kmer_to_index_rc / index_to_kmer / revcomp; exhaustive k<=8 and all 1-2 byte strings; ASan/UBSan overlay',
+	        'All k-mers for k<=8 (three case patterns) and all byte strings of length <=2 over 0..255 are enumerated; boundary and random k-mers / indices for every k<=32, over-long k-mers must be rejected; all four accepted input types; same workload under ASan+UBSan.',
+	        'Trusts vf/oracles/sigdef.py; "rejected with an error" = any exception.', 'DESIGN.md 3/C07'),
+	'C15': ('exploration', 'runtime monitor: set-algebra oracle for range / identity / disjointness / bit symmetry / triangle (2^-22) / width invariance / strict decrease; exhaustive triples over 6-value universes; ASan overlay',
+	        'The real pairwise distance table over all 64 subsets of five 6-value universes (incl. values colliding under 16/32-bit truncation) is computed for every width combination and all 64^3 ordered triples are checked; random triples built to stress the triangle inequality are sampled.',
+	        'Strict decrease demanded only where it is a theorem for rounded values (A != B, |A or B|+1 < 2^22).', 'DESIGN.md 3/C15'),
 }
 
 NOT_APPLICABLE = []
